@@ -1019,7 +1019,6 @@ class Context(MetadataContextMixin, object):
                     self.log_dict(d)
             #            self.enable_store_metadata = True
             self.store_metadata(force=True)
-            self.enable_store_metadata = False
             state = self.index_state(state)
             return state
 
